@@ -807,8 +807,8 @@ namespace chaiscript {
               return const_var(static_cast<unsigned long long>(u));
             }
           } catch (const std::out_of_range &) {
-            // it's just simply too big
-            return const_var(std::numeric_limits<long long>::max());
+            // it's just simply too big for any integer type
+            throw exception::eval_error("Integer literal is too large to be represented: " + std::string(t_val));
           }
         }
 
